@@ -187,3 +187,21 @@ Definition oracle_step (cf : cfg) (tr : trace) (owner : option N) (e : event) (o
   | EConnect _ => match o with [] => 0 | _ => 2 end
   | _ => if existsb (fun x => match snd x with ODrv _ _ => false | _ => true end) o then 2 else 0
   end.
+
+(* ------------------------------------------------------------ vocabulary of the trace theorems *)
+(* some step of tr passes a call (a -> b, s) on *)
+Definition opened_in (tr : trace) (a b s : N) : bool := existsb (fun x => opens a b s (fst x) (snd x)) tr.
+
+(* number of NoReply errors with reply serial s addressed to a in one step's output *)
+Definition nr_is (a s : N) (x : N * omsg) : bool :=
+  (fst x =? a) && match snd x with OErr ENoReply s' => s' =? s | _ => false end.
+Definition count_noreply (o : out) (a s : N) : nat := length (filter (nr_is a s) o).
+
+(* any error from the bus with reply serial s addressed to a *)
+Definition err_is (a s : N) (x : N * omsg) : bool :=
+  (fst x =? a) && match snd x with OErr _ s' => s' =? s | _ => false end.
+Definition errors_in (tr : trace) (a s : N) : nat := length (filter (err_is a s) (flat_map snd tr)).
+
+(* how many messages with serial s connection a wrote in history h *)
+Definition sends_with_serial (h : list event) (a s : N) : nat :=
+  length (filter (fun e => match e with ESend c m => (c =? a) && (m_serial m =? s) | _ => false end) h).
